@@ -60,7 +60,9 @@ EXTRA = {
             ("SafeC.Sort.cycleGo_tot", "SafeC.Proofs.SortSafe", "lemma", "the element moves of cycle() on in-range positions never fault"),
             ("SafeC.Sort.steps_bound", "SafeC.Proofs.Bsearch", "lemma", "steps(m) <= ceil(log2 m) + 1, in the form 2^(steps m - 1) <= 2(m-1) for m >= 2"),
             ("SafeC.Sort.shl_bit", "SafeC.Proofs.SortBits", "lemma", "shl(p, n) on the two-word vector with x86 shift-count masking, 0 < n < 128: bit i of the result = bit i-n of p (bit-level spec; shr_bit, or1_bit, xor7_bit, and3_iff alike)"),
-            ("SafeC.Sort.pntz_spec64", "SafeC.Proofs.SortBits", "lemma", "repaired pntz = distance from bit 0 to the next set bit of the 128-bit vector, unless that distance is exactly 64 (pntz_at64: answers 0)"),
+            ("SafeC.Sort.pntz_spec64", "SafeC.Proofs.SortBits", "lemma", "whole-word ntz + repaired pntz (p[1] != 0 tested itself): pntz = distance from bit 0 to the next set bit of the 128-bit vector, EVERY distance"),
+            ("SafeC.Sort.pntz_spec64_partial", "SafeC.Proofs.SortBits", "lemma", "whole-word ntz, pntz repaired or not: pntz = distance to the next set bit unless that distance is exactly 64 (pntz_at64: the unrepaired pntz answers 0)"),
+            ("SafeC.Sort.pntz_none", "SafeC.Proofs.SortBits", "lemma", "whole-word ntz: no set bit above bit 0 in either word: pntz = 0 (repaired or not)"),
             ("SafeC.Sort.pntz_spec32", "SafeC.Proofs.SortBits", "lemma", "pntz with the int builtin (tzcnt on 32 bits) is right as long as the next set bit is at most 32 away"),
             ("SafeC.Sort.mkLp_spec", "SafeC.Proofs.SortLp", "lemma", "the lp[] generation loop: no overflow of the 96 entries, no 64-bit wrap, table = Leonardo numbers up to the first one >= nmemb"),
             ("SafeC.Sort.Forest.next", "SafeC.Proofs.SortShape", "lemma", "forest invariant: pntz is the distance to the next tree order, shr drops the smallest tree, the stepson head - lp[pshift] is the next root"),
@@ -68,7 +70,11 @@ EXTRA = {
             ("SafeC.Sort.mainStep_safe", "SafeC.Proofs.SortShape", "lemma", "one round of the main loop preserves the forest-shape invariant (merge of two adjacent trees / new tree of order 1 / order 0)"),
             ("SafeC.Sort.dismantleStep_safe", "SafeC.Proofs.SortShape", "lemma", "one round of the dismantling loop preserves the shape (drop a one-element tree / split the smallest tree, both trinkle calls on valid forests), head >= 1"),
             ("SafeC.Sort.smooth_safe", "SafeC.Proofs.SortShape", "lemma", "whole smoothsort on n elements returns with the size kept: Shape.init, mainLoop_safe, trinkle_safe, dismantle_safe (ends exactly at head = 0)"),
-            ("SafeC.Sort.qsortMusl_safe", "SafeC.Proofs.SortWhole", "lemma", "qsort_musl with the table it builds itself and the real pntz, nmemb up to leo 65 (repaired) / leo 34 (int builtin)"),
+            ("SafeC.Sort.qsortMusl_safe", "SafeC.Proofs.SortWhole", "lemma", "qsort_musl with the table it builds itself, whole-word ntz and repaired pntz: returns for EVERY nmemb (nmemb*size <= 2^63)"),
+            ("SafeC.Sort.qsortMusl_safe_partial", "SafeC.Proofs.SortWhole", "lemma", "qsort_musl with the table it builds itself and the real pntz, any switches: nmemb up to leo 65 (whole-word ntz) / leo 34 (int builtin)"),
+            ("SafeC.Sort.qsortMusl_sorted", "SafeC.Proofs.SortSorted", "lemma", "qsort_musl, whole-word ntz and repaired pntz, consistent comparator: result ordered for EVERY nmemb"),
+            ("SafeC.Sort.qsortMusl_sorted_partial", "SafeC.Proofs.SortSorted", "lemma", "the same for any switches with nmemb up to leo 65 / leo 34"),
+            ("SafeC.Sort.trinkle_gap64_overrun", "SafeC.Proofs.SortGap64", "lemma", "unrepaired pntz, state p = {1,1}, pshift 1, comparator answering 'greater': trinkle overruns ar[]"),
             ("SafeC.Sort.sift_spec", "SafeC.Proofs.SortSift", "lemma", "sift restores the heap order of one Leonardo tree given both subtrees are heaps (consistent comparator); touches only the tree; the new root dominates the old tree"),
             ("SafeC.Sort.cycle_fn", "SafeC.Proofs.SortSift", "lemma", "cycle on in-range positions = rot on the array seen as a function (sequential moves, repeated positions allowed)"),
             ("SafeC.Sort.trinkle_spec", "SafeC.Proofs.SortTrinkle", "lemma", "trinkle on a forest of heaps with ascending roots from the second tree on (first tree trusted or with heap-ordered subtrees): all trees heaps, all roots ascending, only [0, head] rearranged"),
